@@ -72,7 +72,8 @@ def clean_flags(flags: list[str]) -> list[str]:
 
 def gen_cases(ctx: common.Ctx, n_fix: int, n_ts: int) -> Iterator[dict[str, Any]]:
     cases = corpus.load(["check-*.test"])
-    rng = common.rng_for("C20", "order")
+    import random
+    rng = random.Random("C20-core-order")   # core workload is seed-independent: known crashes are listed per mutant
     rng.shuffle(cases)
     texts = [c.main for c in cases[:400]]
     ts_cases = [c for c in cases if not corpus.uses_fixture_only_features(c) and not c.cmd]
@@ -81,7 +82,7 @@ def gen_cases(ctx: common.Ctx, n_fix: int, n_ts: int) -> Iterator[dict[str, Any]
     while made < n_ts and ts_cases and i < len(ts_cases) * 50:
         c = ts_cases[i % len(ts_cases)]
         i += 1
-        r = common.rng_for("C20", "ts", c.id, i)
+        r = random.Random(f"C20-core-ts-{c.id}-{i}")
         files = c.all_files()
         target = r.choice(sorted(k for k in files if k.endswith((".py", ".pyi"))) or ["main.py"])
         m = mutators.mutate(files[target], r, others=texts, n=1 if r.random() < 0.6 else 2)
@@ -95,15 +96,33 @@ def gen_cases(ctx: common.Ctx, n_fix: int, n_ts: int) -> Iterator[dict[str, Any]
                "_case": c.id, "_ops": m[1], "_mode": "typeshed", "_idx": i, "_target": target}
 
 
+def explore_cases(ctx: common.Ctx, n: int) -> Iterator[dict[str, Any]]:
+    """VERIF_SEED-dependent slice: generated well-typed programs and their single-edit perturbations."""
+    from vlib import typedgen
+    for k in range(n):
+        src, _ = typedgen.generate(("C20x", ctx.seed, k), n_funcs=3 + k % 3)
+        r = common.rng_for("C20x", ctx.seed, k)
+        ops = ["typedgen"]
+        for _ in range(r.randint(0, 2)):
+            m = typedgen.perturb(src, r)
+            if m:
+                src, op = m
+                ops.append(op)
+        yield {"fn": "vlib.tasks.basic:check_typeshed",
+               "args": {"files": {"main.py": src}, "flags": ["--show-traceback", *r.choice([[], ["--strict"], ["--warn-unreachable"]])], "targets": ["main.py"]},
+               "_case": f"typedgen{k}", "_ops": ops, "_mode": "typeshed", "_idx": k, "_target": "main.py", "_explore": True}
+
+
 def daemon_cases(ctx: common.Ctx, n: int) -> Iterator[dict[str, Any]]:
     cases = [c for c in corpus.load(["check-*.test", "fine-grained.test"])
              if not corpus.uses_fixture_only_features(c) and not c.cmd]
-    rng = common.rng_for("C20", "daemon")
+    import random
+    rng = random.Random("C20-core-daemon")
     rng.shuffle(cases)
     texts = [c.main for c in cases[:300]]
     for k in range(n):
         c = cases[k % len(cases)]
-        r = common.rng_for("C20", "dm", c.id, k)
+        r = random.Random(f"C20-core-dm-{c.id}-{k}")
         files = c.all_files()
         versions: list[dict[str, str]] = [dict(files)]
         cur = dict(files)
@@ -132,6 +151,7 @@ def run(ctx: common.Ctx) -> None:
     n_fix, n_ts, n_dm = (0, 4000, 250) if quick else (0, 100000, 6000)
     scale = float(os.environ.get("VERIF_SCALE", "1"))
     n_fix, n_ts, n_dm = int(n_fix * scale), int(n_ts * scale), int(n_dm * scale) * (0 if os.environ.get("VERIF_C20_NODAEMON") else 1)
+    ctx.assumptions += ["core workload (corpus mutants, daemon edit sequences) is seed-independent so that the crashes already present in the tree are listed exactly; VERIF_SEED drives a slice of generated programs and perturbations"]
     ctx.rule = ("corpus program (check-*.test) x 1-2 structure-aware mutations (delete/dup/swap/move stmt, "
                 "rename/cross-wire identifier, replace type expr, truncate, splice, make cyclic); non-trivial = "
                 "mutant still parses with CPython's ast (reaches semantic analysis), distinct by source hash")
@@ -147,24 +167,25 @@ def run(ctx: common.Ctx) -> None:
             def handle(t: dict[str, Any], r: dict[str, Any], rerun: bool = False) -> None:
                 ctx.count()
                 mode = t["_mode"]
+                cid = ("x:" if t.get("_explore") else "") + f"{t['_case']}#{t['_idx']}:{mode}"
                 if r.get("timeout"):
                     if rerun:
                         ctx.violation(f"hang:{mode}", "did not terminate within the watchdog (re-run alone)",
-                                      {"task": t})
+                                      {"task": t}, case=cid)
                     else:
                         timeouts.append(t)
                     return
                 if r.get("died"):
                     ctx.violation(f"worker-died:{mode}:rc={r.get('returncode')}",
-                                  "interpreter process died while checking (signal / hard exit)", {"task": t})
+                                  "interpreter process died while checking (signal / hard exit)", {"task": t}, case=cid)
                     return
                 if not r.get("ok"):
                     ctx.violation(f"harness-exc:{mode}:{str(r.get('exc'))[:80]}", "exception escaped the runner",
-                                  {"task": t, "tb": r.get("tb")})
+                                  {"task": t, "tb": r.get("tb")}, case=cid)
                     return
                 res = r["res"]
                 if mode == "daemon":
-                    handle_daemon(ctx, t, res)
+                    handle_daemon(ctx, t, res, cid)
                     return
                 src = t["args"].get("main") or t["args"]["files"].get(t.get("_target", "main.py"), "")
                 try:
@@ -180,17 +201,19 @@ def run(ctx: common.Ctx) -> None:
                 k = key_of(res)
                 if k:
                     ctx.violation(k, "internal failure instead of a diagnostic",
-                                  {"task": t, "res": {kk: res.get(kk) for kk in ("status", "crash", "internal", "err")}})
+                                  {"task": t, "res": {kk: res.get(kk) for kk in ("status", "crash", "internal", "err")}}, case=cid)
                     return
                 bad = malformed(res)
                 if bad is not None:
-                    ctx.violation("malformed-message", f"ill-formed output line {bad!r}", {"task": t, "line": bad})
+                    ctx.violation("malformed-message", f"ill-formed output line {bad!r}", {"task": t, "line": bad}, case=cid)
                     return
                 if res.get("msgs") or res.get("out"):
                     ctx.sample({"case": t["_case"], "ops": t["_ops"], "mode": mode, "status": res.get("status"),
                                 "first_msg": (res.get("msgs") or res.get("out", "").splitlines() or [""])[0][:160]})
 
             for t, r in pool.imap(gen_cases(ctx, n_fix, n_ts), timeout=120):
+                handle(t, r)
+            for t, r in pool.imap(explore_cases(ctx, max(20, n_ts // 10)), timeout=120):
                 handle(t, r)
             for t, r in (pool.imap(daemon_cases(ctx, n_dm), timeout=300) if n_dm else []):
                 handle(t, r)
@@ -202,7 +225,7 @@ def run(ctx: common.Ctx) -> None:
     ctx.extra["timeouts_rerun"] = len(timeouts)
 
 
-def handle_daemon(ctx: common.Ctx, t: dict[str, Any], res: dict[str, Any]) -> None:
+def handle_daemon(ctx: common.Ctx, t: dict[str, Any], res: dict[str, Any], cid: str) -> None:
     ctx.cell("daemon:sequences")
     ctx.cell("daemon:steps", len(res.get("steps", [])))
     for st in res.get("steps", []):
@@ -213,9 +236,10 @@ def handle_daemon(ctx: common.Ctx, t: dict[str, Any], res: dict[str, Any]) -> No
             i = st["internal"][0]
             k = f"daemon-internal:{i['exc']}@{i['file']}:{i['func']}"
         elif "INTERNAL ERROR" in st.get("out", "") or "Traceback (most recent" in st.get("out", ""):
-            k = "daemon-internal:text"
+            from vlib import inproc
+            k = "daemon-internal:" + inproc.classify_exc(st.get("out", ""))
         if k:
-            ctx.violation(k, "daemon failed internally on an edit", {"task": t, "step": st})
+            ctx.violation(k, "daemon failed internally on an edit", {"task": t, "step": st}, case=cid)
             return
     last = res.get("final")
     if last and last.get("oracle") is not None:
@@ -224,6 +248,6 @@ def handle_daemon(ctx: common.Ctx, t: dict[str, Any], res: dict[str, Any]) -> No
             key = classify_diff(last)
             ctx.violation("daemon-after-bad-input:" + key,
                           "after hostile edits the daemon answers the restored program differently from a full run",
-                          {"task": t, "daemon": last["daemon"], "oracle": last["oracle"]})
+                          {"task": t, "daemon": last["daemon"], "oracle": last["oracle"]}, case=cid)
             return
         ctx.nontriv("daemon", t["_case"], tuple(t["_ops"]))
